@@ -591,7 +591,7 @@ class C05Engine(GenEngineBase):
         faulty = kn.random() < 0.4
         cfg = dict(targets=["python", "numpy", "cpp", "stablehlo"], n_requests=24 if tier == "quick" else 40, allow_faults=True,
                    shared=True, debug_levels={"numpy": [0, 1, 1, 2], "python": [0, 0, 2]}, p_shared_choices=[0.3, 0.6, 0.9],
-                   allow_env=H.FaultEnv.KINDS if faulty else None, reprint_targets=["python", "numpy", "cpp"], generated_programs=0.35, races=0.5)
+                   allow_env=H.FaultEnv.KINDS if faulty else None, reprint_targets=["python", "numpy", "cpp"], generated_programs=0.35, races=0.5, scenarios=0.4)
         return {"seed": seed, "hashseed": None, "nsamples": 40 if tier == "quick" else 120,
                 "history": H.gen_history(seed, self.universe, cfg)}
 
